@@ -470,11 +470,11 @@ pub fn get_best_move_until_stop(
     // Never start deeper than the requested limit
     let starting_depth = max_depth.map_or(starting_depth, |d| starting_depth.min(d.max(1)));
 
-    for depth in starting_depth.. {
+    for depth in starting_depth..=u8::MAX {
         let Some((best_move, best_score, is_only_move)) =
             get_best_move_entry(game.clone(), continue_running, depth, table, &mut history)
         else {
-            return found_move;
+            break;
         };
 
         let mut hash = game.hash();
@@ -507,9 +507,14 @@ pub fn get_best_move_until_stop(
             || best_score > Score::MAX - 1000
             || best_score < Score::MIN + 1000
         {
-            return found_move;
+            break;
+        }
+
+        // An iteration answered from the table never looks at the flag
+        if !continue_running.load(Relaxed) {
+            break;
         }
     }
 
-    unreachable!()
+    found_move
 }
